@@ -4,7 +4,7 @@ from verif.core import Infra
 META = dict(
     technique="TLC exhaustive model check of FSCache.tla (all interleavings of cache lookup / open / insert-or-discard-duplicate / big-file reader pool / reads / reader close / DecReadersCount / cleanCache / manager close / fsFile.Release) + TLC trace validation of hook- and file-recorded executions of the real FS handler (B2) + direct per-handle counters and /proc/self/fd scan",
     design_ref="DESIGN.md §4 C25, Appendix A.4",
-    text="The design (one TLA+ action per critical section of fs.go's cache manager, the bigFiles pool and fsFile.Release; a manager that starts closed is the noopCacheManager of FS.SkipCache) is model-checked exhaustively for 2 paths and 2 (quick) / 3 (thorough) concurrent requests with any expiry set per cleaning pass and the manager closed at any point (close() = `closed = true` then collect-and-empty as two steps of one critical section; thorough: TLC must refute the variant that drops cacheLock between them): every handle is closed at most once, every fsFile is Release()d at most once, readersCount equals the number of responses using the file, a file with readers is never selected for release and its handles stay open, no read hits a closed handle, nothing is left open at quiescence after the manager was closed (thorough: also the liveness property that every opened handle is eventually closed). Real FS handlers (an instrumented fs.FS whose files log Open/Read/Seek/Stat/Close with handle ids; the default filesystem with fsFile.f wrapped white-box at the SetFileToCache hook) are driven by seeded concurrent clients (complete, slow and aborted reads, HEAD, 304, ranges, gzip, files around the 8 KiB small/big threshold, directories, missing paths) with CacheDuration 4 ms while the manager is closed at a random point through CleanStop, cacheManager.Close() (what the handler finaliser calls) or both, with SkipCache, and with injected I/O errors (header read, reader seek, uncreatable CompressRoot); lock-step executions park the closer and the responses holding the last reference of cached files on cacheLock in a seeded order and release them first-come-first-served (mutex starvation mode), so that a last reader's DecReadersCount runs right behind the closer's first critical section. `closed` is read white-box at every hook that runs under cacheLock: the first critical section that sees it logs fs.closed, which must be the one that logs fs.close. Every execution's log (events emitted under cacheLock / bigFilesLock / before Release acts, file events logged before they act) must be a behaviour of the same spec with all invariants evaluated in every reconstructed state and a final nothing-left-open condition; independently each handle is counted (closed exactly once, no use after Close, none open at quiescence (established structurally: clients done, server shut down, cleaner goroutine gone -- never by a wait expiring), readersCount 0, no descriptor under the root in /proc/self/fd, complete responses carry the file's bytes).",
+    text="The design (one TLA+ action per critical section of fs.go's cache manager, the bigFiles pool and fsFile.Release; a manager that starts closed is the noopCacheManager of FS.SkipCache) is model-checked exhaustively for 2 paths and 2 (quick) / 3 (thorough) concurrent requests with any expiry set per cleaning pass and the manager closed at any point (close() = `closed = true` then collect-and-empty as two steps of one critical section; thorough: TLC must refute the variant that drops cacheLock between them): every handle is closed at most once, every fsFile is Release()d at most once, readersCount equals the number of responses using the file, a file with readers is never selected for release and its handles stay open, no read hits a closed handle, nothing is left open at quiescence after the manager was closed (thorough: also the liveness property that every opened handle is eventually closed). Real FS handlers (an instrumented fs.FS whose files log Open/Read/Seek/Stat/Close with handle ids; the default filesystem with fsFile.f wrapped white-box at the SetFileToCache hook) are driven by seeded concurrent clients (complete, slow and aborted reads, HEAD, 304, ranges, gzip, files around the 8 KiB small/big threshold, directories, missing paths) with CacheDuration 4 ms while the manager is closed at a random point through CleanStop, cacheManager.Close() (what the handler finaliser calls) or both, with SkipCache, and with injected I/O errors (header read, reader seek, uncreatable CompressRoot); lock-step executions park the closer and the responses holding the last reference of cached files on cacheLock in a seeded order and release them first-come-first-served (mutex starvation mode), so that a last reader's DecReadersCount runs right behind the closer's first critical section. `closed` is read white-box at every hook that runs under cacheLock: the first critical section that sees it logs fs.closed, which must be the one that logs fs.close. Every execution's log (events emitted under cacheLock / bigFilesLock / before Release acts, file events logged before they act) must be a behaviour of the same spec with all invariants evaluated in every reconstructed state and a final nothing-left-open condition; independently each handle is counted (closed exactly once, no use after Close, none open at quiescence (established structurally: clients done, server shut down, cleaner goroutine gone -- never by a wait expiring; an execution whose cleaner is not seen to stop within 4 min is not judged for leaks and only counted), readersCount 0, no descriptor under the root in /proc/self/fd, complete responses carry the file's bytes).",
     note="Trusted: hook placement (cache events under cacheLock, pool events under bigFilesLock, fs.release before Release acts), goroutine-to-request attribution in the harness, TLC, Go runtime. On the default filesystem the handles of big-file readers are raw *os.File: they are covered by the descriptor scan and body comparison, not by per-handle events. Cache expiry is untimed in the model (any subset of entries may expire per pass). Real-code schedules are sampled (seeded clients + jitter at open sites), not exhaustive; enumeration is on the model.",
 )
 
